@@ -389,6 +389,10 @@ impl Monitor for C13 {
                         pairs.push(("mod-operator", m.clone(), s.clone(), k));
                     }
                 }
+                // white space by the tens of kilobytes (seeded change C13-r11: a 64 KiB limit on the raw text)
+                pairs.push(("whitespace", "1+7".into(), format!("1{}+7", " ".repeat(70_000)), 70_000));
+                pairs.push(("whitespace", "2*3".into(), format!("2*{}3", "\u{3000}".repeat(30_000)), 30_000));
+                pairs.push(("whitespace", "abs(4)".into(), format!("{}abs(4){}", "\n\t ".repeat(25_000), " ".repeat(200)), 75_000));
                 for (kind, a, b, k) in pairs {
                     if ctx.mine() {
                         ctx.check(&Case::pair(ev, kind, &a, z, &b, z).with_extra(&format!("x{}", k)), &|c, st| {
